@@ -14,6 +14,20 @@ def run(tier, seed, replay):
     hists = [[{"op": "get", "name": s} for s in sp["cfg"]["services"]] + [{"op": "get", "name": s} for s in list(sp["cfg"]["services"])[:2]]
              + [o for s in sp["cfg"]["services"] for o in ({"op": "getctx", "ctx": 1, "name": s}, {"op": "get", "name": s}, {"op": "getctx", "ctx": 2, "name": s}, {"op": "getctx", "ctx": 1, "name": s})]
              for sp in specs]
+    # the same configurations spread over files: followed by an unrelated file, preceded by one, split at attribute level
+    import random as _rnd
+    for k, sp in enumerate(specs):
+        cfg = sp["cfg"]
+        rr_ = _rnd.Random("%s/c02files/%d" % (seed, k))
+        if k % 4 == 1:
+            sp["files"] = [{"path": "cfg/10.yaml", "content": cfggen.to_yaml(cfg)}, {"path": "cfg/20.yaml", "content": "parameters: {late_extra: 1}\n"}, {"path": "cfg/30.yaml", "content": "meta: {pkg: main}\n"}]
+        elif k % 4 == 2:
+            sp["files"] = [{"path": "cfg/10.yaml", "content": "parameters: {early_extra: 1}\n"}, {"path": "cfg/20.yaml", "content": cfggen.to_yaml(cfg)}]
+        elif k % 4 == 3:
+            sp["files"] = [{"path": "cfg/f%d.yaml" % i, "content": cfggen.to_yaml(p_)} for i, p_ in enumerate(cfggen.split_files(rr_, cfg, rr_.randint(2, 4)))]
+        if k % 4:
+            sp["patterns"] = ["cfg/*.yaml"]
+            sp["what"] = [sp["what"][0] + "/files%d" % (k % 4)]
     # pointer-valued value services in every scope with fields and calls: each construction starts from a fresh value
     for sc in ("non_shared", "contextual", "shared", None):
         for val in ("&MyStruct{}", "&al.MyStruct{}", "MyStruct{}"):
